@@ -43,6 +43,7 @@ type frame struct {
 	callOrd map[*ast.CallExpr]int
 	body    *ast.BlockStmt
 	inline  bool
+	transparent bool // inlined contract-less helper: the unit's call anchors apply to the calls it makes
 	labels  map[string]ast.Stmt
 	localAllocs map[types.Object]bool
 }
@@ -92,6 +93,7 @@ type Unit struct {
 	shape       *bodyShape // loops / literals of this unit's own body (current tree)
 	goneLoops   []int      // baseline loop ordinals without a counterpart in the current body
 	goneLits    []int
+	clauseFired map[*Clause]bool // assert@ / oncall clauses that met at least one point of the body
 	newHelpers  []string // callees without contract, not inlinable, that did not exist in the baseline
 	curBin      string // source text of the binary expression being evaluated (obligation names)
 	loopRegion  bool // modified() is computing a loop's modified set
@@ -290,6 +292,21 @@ func (u *Unit) newFrame(fn *types.Func, sig *types.Signature, body *ast.BlockStm
 					u.goneLits = gone
 				}
 			}
+			// cut points the contract relies on that are not in the body any more (a labelled retry point
+			// rewritten as a loop, a loop under invariant unrolled or merged): everything the unit proves
+			// downstream of them rests on those invariants, so the whole unit is stale, not refuted
+			if spec != nil {
+				for l := range spec.Labels {
+					if _, ok := fr.labels[l]; !ok {
+						u.failed = append(u.failed, fmt.Sprintf("no such label %s in the body any more (contract has invariants at it)", l))
+					}
+				}
+				for _, k := range u.goneLoops {
+					if ls, ok := spec.Loops[k]; ok && len(ls.Invariants) > 0 {
+						u.failed = append(u.failed, fmt.Sprintf("has no loop %d any more (contract has invariants for it)", k))
+					}
+				}
+			}
 		}
 	}
 	// result variables: named ones from the signature, synthetic otherwise
@@ -336,6 +353,7 @@ func (e *Engine) RunFunc(fn *types.Func, fc *FuncContract) (ru *Unit) {
 	u.bindEntry(st, fr, sig, fc)
 	u.runAnchorsNamed(st, "entry", fi.decl.Body.Pos(), nil)
 	u.runBody(st, fr, fi.decl.Body.Pos())
+	u.unfiredClauses()
 	return u
 }
 
